@@ -176,6 +176,12 @@ def _meta(d):
     return m
 
 
+def _omit_meta(d):
+    """deterministic third of the descriptions without an include flag: built without a meta argument."""
+    import zlib
+    return zlib.crc32(repr(sorted((k, repr(v)) for k, v in d.items() if not k.startswith('_'))).encode()) % 3 == 0
+
+
 def build(d):
     import operator
 
@@ -188,39 +194,54 @@ def build(d):
     if d.get('c_int'):
         # integer-typed centre (as a user writing PixCoord(3, 4) gets)
         P = lambda p: PixCoord(int(p[0]), int(p[1]))
+    elif d.get('c_f32'):
+        # centre given as numpy float32 scalars (e.g. from a float32 catalogue column); the values are float32-exact
+        P = lambda p: PixCoord(np.float32(p[0]), np.float32(p[1]))
     else:
         P = lambda p: PixCoord(p[0], p[1])
     A = lambda a: a[0] * u.Unit(a[1])
     m = _meta(d)
+    if k != 'compound' and d.get('include', 'absent') == 'absent' and not d.get('_sibling') and _omit_meta(d):
+        # no meta argument at all (the constructor's default), AFTER a sibling of the same class - built without meta
+        # and visual as well - has had its own meta and visual edited: regions built apart share nothing
+        m = None
+        sib = build(dict(d, _sibling=True))
+        sib.meta['include'] = False
+        sib.meta['text'] = 'sibling'
+        sib.visual['color'] = 'red'
+    elif d.get('_sibling'):
+        m = None
+    # m is None: the meta argument is OMITTED (a mutable default argument would only show that way)
+    mk = {} if m is None else {'meta': m}
     if k == 'circle':
-        return CirclePixelRegion(P(d['c']), d['r'], meta=m)
+        return CirclePixelRegion(P(d['c']), d['r'], **mk)
     if k == 'ellipse':
-        return EllipsePixelRegion(P(d['c']), d['w'], d['h'], angle=A(d['angle']), meta=m)
+        return EllipsePixelRegion(P(d['c']), d['w'], d['h'], angle=A(d['angle']), **mk)
     if k == 'rectangle':
-        return RectanglePixelRegion(P(d['c']), d['w'], d['h'], angle=A(d['angle']), meta=m)
+        return RectanglePixelRegion(P(d['c']), d['w'], d['h'], angle=A(d['angle']), **mk)
     if k == 'polygon':
         if 'origin' in d:
             o = d['origin']
             return PolygonPixelRegion(PixCoord([p[0] - o[0] for p in d['v']], [p[1] - o[1] for p in d['v']]),
-                                      origin=P(o), meta=m)
-        return PolygonPixelRegion(PixCoord([p[0] for p in d['v']], [p[1] for p in d['v']]), meta=m)
+                                      origin=P(o), **mk)
+        return PolygonPixelRegion(PixCoord([p[0] for p in d['v']], [p[1] for p in d['v']]), **mk)
     if k == 'regular_polygon':
-        return RegularPolygonPixelRegion(P(d['c']), d['n'], d['r'], angle=A(d['angle']), meta=m)
+        return RegularPolygonPixelRegion(P(d['c']), d['n'], d['r'], angle=A(d['angle']), **mk)
     if k == 'circle_annulus':
-        return CircleAnnulusPixelRegion(P(d['c']), d['r1'], d['r2'], meta=m)
+        return CircleAnnulusPixelRegion(P(d['c']), d['r1'], d['r2'], **mk)
     if k == 'ellipse_annulus':
-        return EllipseAnnulusPixelRegion(P(d['c']), d['w1'], d['w2'], d['h1'], d['h2'], angle=A(d['angle']), meta=m)
+        return EllipseAnnulusPixelRegion(P(d['c']), d['w1'], d['w2'], d['h1'], d['h2'], angle=A(d['angle']), **mk)
     if k == 'rectangle_annulus':
-        return RectangleAnnulusPixelRegion(P(d['c']), d['w1'], d['w2'], d['h1'], d['h2'], angle=A(d['angle']), meta=m)
+        return RectangleAnnulusPixelRegion(P(d['c']), d['w1'], d['w2'], d['h1'], d['h2'], angle=A(d['angle']), **mk)
     if k == 'point':
-        return PointPixelRegion(P(d['c']), meta=m)
+        return PointPixelRegion(P(d['c']), **mk)
     if k == 'text':
-        return TextPixelRegion(P(d['c']), d.get('text', 'label'), meta=m)
+        return TextPixelRegion(P(d['c']), d.get('text', 'label'), **mk)
     if k == 'line':
-        return LinePixelRegion(P(d['a']), P(d['b']), meta=m)
+        return LinePixelRegion(P(d['a']), P(d['b']), **mk)
     if k == 'compound':
         op = {'and': operator.and_, 'or': operator.or_, 'xor': operator.xor}[d['op']]
-        return CompoundPixelRegion(build(d['a']), build(d['b']), op, meta=m)
+        return CompoundPixelRegion(build(d['a']), build(d['b']), op, **mk)
     raise ValueError(k)
 
 
@@ -418,7 +439,7 @@ def approx_center(d):
 
 # ------------------------------------------------------------------ regions with a history
 
-HISTORY_KINDS = ['circle', 'ellipse', 'rectangle', 'polygon', 'circle_annulus', 'ellipse_annulus',
+HISTORY_KINDS = ['circle', 'ellipse', 'rectangle', 'polygon', 'regular_polygon', 'circle_annulus', 'ellipse_annulus',
                  'rectangle_annulus', 'point', 'line']
 
 
@@ -448,6 +469,15 @@ def reassign(reg, d, prev=None):
             reg.angle = A(d['angle'])
     elif k == 'polygon':
         reg.vertices = PixCoord([p[0] for p in d['v']], [p[1] for p in d['v']])
+    elif k == 'regular_polygon':
+        if ch('c'):
+            reg.center = P(d['c'])
+        if ch('n'):
+            reg.nvertices = d['n']
+        if ch('r'):
+            reg.radius = d['r']
+        if ch('angle'):
+            reg.angle = A(d['angle'])
     elif k == 'circle_annulus':
         reg.center = P(d['c'])
         # keep inner < outer at every step
